@@ -173,6 +173,13 @@ func (o *object) call(this Value, argumentList []Value, eval bool, frm frame) Va
 
 		// Enter a scope, name from the native object...
 		rt := o.runtime
+		if rt.scope == nil {
+			// Called from Go while the runtime is at rest (Value.String, Value.Call,
+			// Object.Call, ...): without a scope nested native calls would not be
+			// counted against the stack depth limit.
+			rt.enterGlobalScope()
+			defer rt.leaveScope()
+		}
 		if rt.scope != nil && !eval {
 			rt.enterFunctionScope(rt.scope.lexical, this)
 			rt.scope.frame = frame{
